@@ -58,6 +58,50 @@ UNIVS = [
 FALSY = ["s:", "i:0", "t:", "z:1", "l:1"]
 
 
+DW_UNIV = ["W:1", "W:2", "W:3", "s:x", "W:4", "W:5"]
+
+
+def dw_descs(tier, rng):
+    """plain Tree holding DictWrapper objects whose dict keys ARE key_map / value_map entries, saved and loaded with the
+    library's own DictWrapper.serialize_mapper / deserialize_mapper; one object is added twice (a clone)"""
+    shapes = [sh for n in range(1, 5 if tier == "quick" else 6) for sh in H.forests(n)]
+    if tier == "quick":
+        shapes = shapes[::2]
+    for j, shape in enumerate(shapes):
+        k = rng.randint(2, len(DW_UNIV))
+        nodes = B.shape_to_nodes(shape, lambda i, d, s: (rng.randrange(k), None, None))
+        td = dict(typed=False, univ=DW_UNIV, nodes=nodes, calc=None, mapper="dw", km=KMS[j % 3], vm=["custom", "true", "false"][(j // 3) % 3],
+                  meta=None)
+        if valid_desc(td):
+            yield td
+
+
+RT_UNIV = ["s:a", "p:1", "e:1", "p:2", "s:c", "w:1"]
+
+
+def retarget_descs(tier, rng):
+    """HISTORY before the save: the tree is built without any clone, then nodes are re-keyed with set_data()/rename()
+    so that clone groups come into being that never went through Tree._register"""
+    shapes = [sh for n in range(2, 5 if tier == "quick" else 6) for sh in H.forests(n)]
+    for j, shape in enumerate(shapes):
+        n = H.shape_size(shape)
+        for _ in range(1 if tier == "quick" else 2):
+            typed = rng.random() < 0.5
+            perm = rng.sample(range(len(RT_UNIV)), n)
+            nodes = B.shape_to_nodes(shape, lambda i, d, s: (perm[i], KINDS[rng.randrange(2)] if typed else None, None))
+            for _try in range(6):
+                a, b = rng.sample(range(n), 2)
+                rt = [[b, perm[a]]]
+                if n >= 4 and rng.random() < 0.4:
+                    c2, d2 = rng.sample(range(n), 2)
+                    rt.append([d2, perm[c2]])
+                td = dict(typed=typed, univ=RT_UNIV, nodes=nodes, retarget=rt, calc=None, mapper=rng.choice(["cb", "derived"]),
+                          km=KMS[j % 3], vm=["true", "false", "custom"][(j // 2) % 3], meta=None)
+                if valid_desc(td):
+                    yield td
+                    break
+
+
 def falsy_descs():
     """every falsy data value as plain data and as a clone, with and without explicit data_id, in Tree and TypedTree,
     callback and derived-class mappers (and the built-in default mapper for "")"""
@@ -102,7 +146,15 @@ class Prop:
               "JSON value without the nutree header is rejected.  Tied to /repo by a correspondence check on the real JSON text and on documents "
               "produced by an independent Python encoder."),
         note=("Trusted: Coq kernel + vm_compute; hand-written model theories/Forest/Serialize.v (tied by the correspondence only); json module; "
-              "harness generators/observation."),
+              "harness generators/observation.  The header predicate (has_header_decl) and the maps in use (km_spec / vm_spec, incl. the "
+              "TypedTree kind list) are specified independently of the model and proved equal to what the reader tests / the writer resolves.  "
+              "EXERCISED, NOT PROVED: str/Path targets write the same document as a stream; save leaves the caller's dicts and node data "
+              "untouched.  OUTSIDE THE DOCUMENTED LAYOUT / THE QUANTIFIER: JSON objects with a duplicate member name (the model reads the "
+              "first binding, json.load keeps the last; json.dump never writes them); value_map lists are lists of STRINGS in the model "
+              "(Python also accepts other hashable values); opts_ok excludes a non-injective key_map, entry keys equal to a short name (D51) "
+              "and values not listed (save raises KeyError) -- outside opts_ok the correspondence still compares model and implementation "
+              "(CSaveRaw cases) but no theorem applies; files of other generator versions are covered by the guide's literal documents and "
+              "the FOREIGN cases only."),
         technique="Coq proof about an executable Gallina model + differential correspondence check (vm_compute) + Python oracle",
         design_ref="DESIGN.md section 6 (C12)",
     )
@@ -110,7 +162,7 @@ class Prop:
     # ----- generation
     def tree_descs(self, tier, rng):
         nmax = 4 if tier == "quick" else 5
-        per_shape = 8 if tier == "quick" else 10
+        per_shape = 6 if tier == "quick" else 10
         for n in range(0, nmax + 1):
             for shape in H.forests(n):
                 for lab in label_patterns(n, rng, per_shape):
@@ -124,7 +176,7 @@ class Prop:
                     td = dict(typed=typed, univ=univ, nodes=nodes, calc=rng.choice([None, None, None, "name"]))
                     if valid_desc(td):
                         yield td
-        nrand = 120 if tier == "quick" else 400
+        nrand = 90 if tier == "quick" else 400
         for _ in range(nrand):
             n = rng.randint(5, 12)
             shape = H.random_shape(rng, n, deep=rng.choice([0.2, 0.5, 0.8]))
@@ -147,6 +199,9 @@ class Prop:
         for v, typed, mapper in FOREIGN:
             yield dict(kind="raw", doc=v, typed=typed, mapper=mapper)
         for fd in falsy_descs():
+            yield dict(fd, kind="save")
+            yield dict(fd, kind="load", shuffle=False)
+        for fd in list(dw_descs(tier, rng)) + list(retarget_descs(tier, rng)):
             yield dict(fd, kind="save")
             yield dict(fd, kind="load", shuffle=False)
         for td in self.tree_descs(tier, rng):
@@ -193,12 +248,13 @@ class Prop:
         ms = desc.get("mapper", "cb")
         import nutree
         return S.py_layout(tree._root, typed=bool(desc.get("typed")), kmap=kmap, vmap=vmap, meta=desc.get("meta"),
-                           mapper=None if ms == "none" else S.ser_mapper, version=nutree.__version__)
+                           mapper=S.layout_mapper(ms), version=nutree.__version__)
 
     def run_save(self, desc, tree, U):
         skw, _lkw, _cls = S.resolve_opts(desc)
         import copy
         skw_snap = copy.deepcopy({k: v for k, v in skw.items() if k in ("key_map", "value_map", "meta")})
+        data_snap = S.data_snapshot(tree._root)
         fail = None
         finding = None
         try:
@@ -219,8 +275,13 @@ class Prop:
                 fail = f"writer: save failed with error class {obs[0][1]} although the layout is defined"
             elif got != exp:
                 fail = f"writer: document differs from the documented layout: got {json.dumps(got)[:600]} expected {json.dumps(exp)[:600]}"
+        # save is read-only: the data of every node is what it was (checked before anything is derived from the live tree)
+        ro = S.snapshot_diff(data_snap, S.data_snapshot(tree._root), "save()")
+        if ro:
+            fail = ro
         if exp is not None and got is not None and not fail:
             fail = self.more_writer_checks(desc, tree, skw, got)
+            fail = fail or S.snapshot_diff(data_snap, S.data_snapshot(tree._root), "save()")
         if not fail:
             now = {k: v for k, v in skw.items() if k in skw_snap}
             if now != skw_snap:
@@ -279,8 +340,9 @@ class Prop:
         try:
             t2 = cls.load(io.StringIO(text), file_meta=meta, **lkw)
         except Exception as e:  # noqa: BLE001
-            hashes, _names = S.failed_load_facts(lambda: cls.load(io.StringIO(text), **lkw))
+            hashes, self._last_names = S.failed_load_facts(lambda: cls.load(io.StringIO(text), **lkw))
             return None, [1, S.err_class(e)], hashes, meta
+        self._last_names = S.loaded_names(t2)
         try:
             dn = json.loads(text)["nodes"]
         except Exception:  # noqa: BLE001
@@ -313,11 +375,10 @@ class Prop:
         finding = None
         needs_mapper = ms == "none" and any(isinstance(e[1], dict) for e in doc["nodes"]) and not desc.get("typed")
         if t2 is None:
-            if not needs_mapper:
-                fail = f"reader: refuses a document of the documented layout (error class {obs[1]}): {text[:500]}"
+            fail = f"reader: refuses a document of the documented layout (error class {obs[1]}): {text[:500]}"
         else:
             d40 = S.in_d40_region(tree._root)
-            fail = S.tree_iso(tree._root, t2._root, d40_expected=d40, check_data=S.ids_consistent(tree._root))
+            fail = S.tree_iso(tree._root, t2._root, d40_expected=d40)
             if fail and fail.startswith("D40"):
                 finding = "D40"
             if not fail and meta != doc["meta"]:
@@ -334,7 +395,7 @@ class Prop:
         fail = fail or S.class_defaults_changed()
         strings = set()
         S.all_strings(doc, strings)
-        coq = f"CLoad {S.coq_lenv(bool(desc.get('typed')), ms, strings, hashes)} {S.jv_coq(doc)}"
+        coq = f"CLoad {S.coq_lenv(bool(desc.get('typed')), ms, strings, hashes, self._last_names if ms == 'dw' else ())} {S.jv_coq(doc)}"
         refs = sum(1 for e in doc["nodes"] if isinstance(e[1], int))
         return Case(desc=desc, coq_input=coq, impl_obs=obs, oracle_fail=fail, finding=finding,
                     nontrivial=refs > 0 or any(isinstance(e[1], dict) for e in doc["nodes"]),
@@ -454,6 +515,9 @@ CORPUS = [
     dict(kind="load", typed=True, univ=["s:x", "s:y", "e:1"], nodes=[[0, "a", None, [[1, "a", None, [[0, "b", None, []]]]]], [2, "a", None, [[0, "a", None, []], [2, "b", None, []]]]], km="custom", vm="custom", mapper="cb"),
     # D90: TypedTree.save(value_map=<dict without "kind">) writes the kind list into the caller's dict
     dict(kind="save", typed=True, univ=["s:x", "s:y"], nodes=[[0, "a", None, [[1, "b", None, []]]]], km="true", vm="custom_nokind", mapper="cb", meta=None, calc=None),
+    # outside the domain (clones_consistent): one explicit data_id on two different data objects -- 'b' must load as 'a', exactly
+    dict(kind="load", typed=False, univ=["s:a", "s:x", "s:b"], nodes=[[0, None, 1, []], [1, None, None, [[2, None, 1, []]]]], km="true", vm="true", mapper="cb"),
+    dict(kind="save", typed=False, univ=["s:a", "s:x", "s:b"], nodes=[[0, None, 1, []], [1, None, None, [[2, None, 1, []]]]], km="true", vm="true", mapper="cb"),
     # D40 (known): identity-hashed data, clone of another kind
     dict(kind="load", typed=True, univ=["p:1", "s:y"], nodes=[[0, "a", None, []], [1, "a", None, [[0, "b", None, []]]]], km="true", vm="true", mapper="cb"),
 ]
